@@ -33,7 +33,7 @@ def program_defs(L, program, idx):
 
 
 def check_call(lang, idx):
-    return "check_program STRICT L_%s cn%d bclasses_%s bt_%s array_%s kw%d p%d" % (lang, idx, lang, lang, lang, idx, idx)
+    return "check_program INFER STRICT L_%s cn%d bclasses_%s bt_%s array_%s kw%d p%d" % (lang, idx, lang, lang, lang, idx, idx)
 
 
 HDR = (C.CASE_HEADER + "From Coq Require Import List Arith Bool.\nImport ListNotations.\n"
